@@ -59,3 +59,155 @@ def _(cv, disp_interval, possibility_threshold, type_factor):
     invariant(2, True)
     invariant(3, True)
     invariant(4, True)
+
+
+# ---------------------------------------------------------------------------------------------------------------------
+# C12, first sentence: "each step appends its own named band and leaves every existing band ... exactly".  Every
+# cost_volume_confidence method (and cross-checking) stores its indicator through allocate_confidence_map: proved here for every
+# image size, band count and band content, once per STRUCTURE of the two datasets (None / no confidence_measure yet / some bands).
+@contract("pandora.cost_volume_confidence.cost_volume_confidence.AbstractCostVolumeConfidence.allocate_confidence_map",
+          props=["C12"])
+def _(name_confidence_measure, confidence_map, disp, cv):
+    types(name_confidence_measure="str", confidence_map="f32[:,:]", disp="opaque", cv="opaque", result="tuple")
+    type_cases(cv=[None,
+                   {"vars": {"cost_volume": "f32[:,:,:]"},
+                    "coords": {"row": "i64[:]", "col": "i64[:]", "disp": "f64[:]"},
+                    "dims": {"cost_volume": ["row", "col", "disp"]}},
+                   {"vars": {"cost_volume": "f32[:,:,:]", "confidence_measure": "f32[:,:,:]"},
+                    "coords": {"row": "i64[:]", "col": "i64[:]", "disp": "f64[:]", "indicator": "str[:]"},
+                    "dims": {"cost_volume": ["row", "col", "disp"], "confidence_measure": ["row", "col", "indicator"]}}],
+               disp=[None,
+                     {"vars": {"disparity_map": "f32[:,:]", "validity_mask": "u16[:,:]"},
+                      "coords": {"row": "i64[:]", "col": "i64[:]"},
+                      "dims": {"disparity_map": ["row", "col"], "validity_mask": ["row", "col"]}},
+                     {"vars": {"disparity_map": "f32[:,:]", "validity_mask": "u16[:,:]", "confidence_measure": "f32[:,:,:]"},
+                      "coords": {"row": "i64[:]", "col": "i64[:]", "indicator": "str[:]"},
+                      "dims": {"disparity_map": ["row", "col"], "validity_mask": ["row", "col"],
+                               "confidence_measure": ["row", "col", "indicator"]}}])
+    # the map is on the datasets' grid, and so are the bands already present (what the callers pass)
+    requires("grid_cv", implies(cv is not None, confidence_map.shape[0] == cv.coords["row"].data.shape[0]
+                                and confidence_map.shape[1] == cv.coords["col"].data.shape[0]))
+    requires("grid_disp", implies(disp is not None, confidence_map.shape[0] == disp.coords["row"].data.shape[0]
+                                  and confidence_map.shape[1] == disp.coords["col"].data.shape[0]))
+    requires("bands_cv", implies(cv is not None and "confidence_measure" in cv.data_vars,
+                                 cv["confidence_measure"].data.shape[0] == confidence_map.shape[0]
+                                 and cv["confidence_measure"].data.shape[1] == confidence_map.shape[1]
+                                 and cv["confidence_measure"].data.shape[2] == cv.coords["indicator"].data.shape[0]))
+    requires("bands_disp", implies(disp is not None and "confidence_measure" in disp.data_vars,
+                                   disp["confidence_measure"].data.shape[0] == confidence_map.shape[0]
+                                   and disp["confidence_measure"].data.shape[1] == confidence_map.shape[1]
+                                   and disp["confidence_measure"].data.shape[2] == disp.coords["indicator"].data.shape[0]))
+    # a disparity dataset that takes the cost volume's DataArray is labelled like the cost volume (xarray aligns by label)
+    requires("same_labels", implies(disp is not None and cv is not None,
+                                    all(disp.coords["row"].data[r] == cv.coords["row"].data[r] for r in range(confidence_map.shape[0]))
+                                    and all(disp.coords["col"].data[c] == cv.coords["col"].data[c] for c in range(confidence_map.shape[1]))))
+    raises_never()
+    # call sites (disparity_checking, C07) keep the assumed contract of contracts/validation.py, whose clause "band" is the
+    # clauses *_new_band / *_band_count below restricted to the disparity dataset
+    option(standalone=True)
+    ensures("none_stays_none", (result[0] is None) == (disp is None), (result[1] is None) == (cv is None))
+    # cost volume: one more band, named confidence_from_<name>, holding the map; the earlier bands and their names exactly as before
+    ensures("cv_band_count", (result[1]["confidence_measure"].data.shape[2]
+                               == (old(cv["confidence_measure"].data.shape[2]) + 1 if "confidence_measure" in old(cv).data_vars else 1))
+            if cv is not None else True)
+    ensures("cv_existing_bands_kept",
+            (all(eq(result[1]["confidence_measure"].data[r, c, k], old(cv["confidence_measure"].data)[r, c, k])
+                 for r in range(confidence_map.shape[0]) for c in range(confidence_map.shape[1])
+                 for k in range(old(cv["confidence_measure"].data.shape[2])))
+             and all(result[1].coords["indicator"].data[k] == old(cv.coords["indicator"].data)[k]
+                     for k in range(old(cv["confidence_measure"].data.shape[2]))))
+            if cv is not None and "confidence_measure" in old(cv).data_vars else True)
+    ensures("cv_new_band",
+            (all(eq(result[1]["confidence_measure"].data[r, c, result[1]["confidence_measure"].data.shape[2] - 1], confidence_map[r, c])
+                 for r in range(confidence_map.shape[0]) for c in range(confidence_map.shape[1]))
+             and result[1].coords["indicator"].data.shape[0] == result[1]["confidence_measure"].data.shape[2]
+             and result[1].coords["indicator"].data[result[1]["confidence_measure"].data.shape[2] - 1]
+             == "confidence_from_" + name_confidence_measure)
+            if cv is not None else True)
+    ensures("cv_rest_untouched",
+            (result[1]["cost_volume"].data.shape[2] == old(cv["cost_volume"].data.shape[2])
+             and all(eq(result[1]["cost_volume"].data[r, c, d], old(cv["cost_volume"].data)[r, c, d])
+                     for r in range(old(cv["cost_volume"].data.shape[0])) for c in range(old(cv["cost_volume"].data.shape[1]))
+                     for d in range(old(cv["cost_volume"].data.shape[2])))
+             and all(result[1].coords["row"].data[r] == old(cv.coords["row"].data)[r] for r in range(confidence_map.shape[0]))
+             and all(result[1].coords["col"].data[c] == old(cv.coords["col"].data)[c] for c in range(confidence_map.shape[1]))
+             and all(eq(result[1].coords["disp"].data[d], old(cv.coords["disp"].data)[d]) for d in range(old(cv.coords["disp"].data.shape[0]))))
+            if cv is not None else True)
+    # disparity dataset: the same, except that a dataset without bands takes over ALL the bands of the cost volume when one is given
+    ensures("disp_band_count",
+            (result[0]["confidence_measure"].data.shape[2]
+             == (old(disp["confidence_measure"].data.shape[2]) + 1 if "confidence_measure" in old(disp).data_vars
+                 else (result[1]["confidence_measure"].data.shape[2] if cv is not None else 1)))
+            if disp is not None else True)
+    ensures("disp_existing_bands_kept",
+            (all(eq(result[0]["confidence_measure"].data[r, c, k], old(disp["confidence_measure"].data)[r, c, k])
+                 for r in range(confidence_map.shape[0]) for c in range(confidence_map.shape[1])
+                 for k in range(old(disp["confidence_measure"].data.shape[2])))
+             and all(result[0].coords["indicator"].data[k] == old(disp.coords["indicator"].data)[k]
+                     for k in range(old(disp["confidence_measure"].data.shape[2]))))
+            if disp is not None and "confidence_measure" in old(disp).data_vars else True)
+    ensures("disp_takes_cv_bands",
+            (all(eq(result[0]["confidence_measure"].data[r, c, k], result[1]["confidence_measure"].data[r, c, k])
+                 for r in range(confidence_map.shape[0]) for c in range(confidence_map.shape[1])
+                 for k in range(result[1]["confidence_measure"].data.shape[2]))
+             and all(result[0].coords["indicator"].data[k] == result[1].coords["indicator"].data[k]
+                     for k in range(result[1]["confidence_measure"].data.shape[2])))
+            if disp is not None and cv is not None and "confidence_measure" not in old(disp).data_vars else True)
+    ensures("disp_new_band",
+            (all(eq(result[0]["confidence_measure"].data[r, c, result[0]["confidence_measure"].data.shape[2] - 1], confidence_map[r, c])
+                 for r in range(confidence_map.shape[0]) for c in range(confidence_map.shape[1]))
+             and result[0].coords["indicator"].data.shape[0] == result[0]["confidence_measure"].data.shape[2]
+             and result[0].coords["indicator"].data[result[0]["confidence_measure"].data.shape[2] - 1]
+             == "confidence_from_" + name_confidence_measure)
+            if disp is not None else True)
+    # exactly the clause that contracts/validation.py assumes at the call site in disparity_checking (C07)
+    ensures("band_as_assumed_at_call_sites",
+            (result[0]["confidence_measure"].data.shape[0] == confidence_map.shape[0]
+             and result[0]["confidence_measure"].data.shape[1] == confidence_map.shape[1]
+             and result[0]["confidence_measure"].data.shape[2] >= 1
+             and all(eq(result[0]["confidence_measure"].data[r, c, result[0]["confidence_measure"].data.shape[2] - 1], confidence_map[r, c])
+                     for r in range(confidence_map.shape[0]) for c in range(confidence_map.shape[1])))
+            if disp is not None else True)
+    ensures("disp_rest_untouched",
+            (all(eq(result[0]["disparity_map"].data[r, c], old(disp["disparity_map"].data)[r, c])
+                 for r in range(old(disp["disparity_map"].data.shape[0])) for c in range(old(disp["disparity_map"].data.shape[1])))
+             and all(result[0]["validity_mask"].data[r, c] == old(disp["validity_mask"].data)[r, c]
+                     for r in range(old(disp["validity_mask"].data.shape[0])) for c in range(old(disp["validity_mask"].data.shape[1])))
+             and result[0]["disparity_map"].data.shape[0] == old(disp["disparity_map"].data.shape[0])
+             and result[0]["disparity_map"].data.shape[1] == old(disp["disparity_map"].data.shape[1])
+             and all(result[0].coords["row"].data[r] == old(disp.coords["row"].data)[r] for r in range(confidence_map.shape[0]))
+             and all(result[0].coords["col"].data[c] == old(disp.coords["col"].data)[c] for c in range(confidence_map.shape[1])))
+            if disp is not None else True)
+
+
+@sampler("pandora.cost_volume_confidence.cost_volume_confidence.AbstractCostVolumeConfidence.allocate_confidence_map")
+def _(rng):
+    import xarray as xr
+    h, w = int(rng.integers(1, 5)), int(rng.integers(1, 5))
+    r0, c0 = int(rng.integers(0, 4)), int(rng.integers(0, 4))   # ROI-like labels
+    rows, cols = np.arange(r0, r0 + h), np.arange(c0, c0 + w)
+    names = ["confidence_from_ambiguity", "confidence_from_risk_min.a", "confidence_from_x", "confidence_from_interval_bounds.inf.long"]
+
+    def bands(k):
+        data = rng.integers(-3, 4, size=(h, w, k)).astype(np.float32)
+        data[rng.random((h, w, k)) < 0.2] = np.nan
+        return xr.DataArray(data, coords=[rows, cols, list(names[:k])], dims=["row", "col", "indicator"])
+
+    kc, kd = int(rng.integers(0, 3)), int(rng.integers(0, 3))   # 0: None, 1: no band yet, 2: some bands
+    cv = disp = None
+    if kc:
+        nd = int(rng.integers(1, 4))
+        cv = xr.Dataset({"cost_volume": (["row", "col", "disp"], rng.integers(0, 5, size=(h, w, nd)).astype(np.float32))},
+                        coords={"row": rows, "col": cols, "disp": np.arange(-1, nd - 1).astype(np.float64)})
+        if kc == 2:
+            cv["confidence_measure"] = bands(int(rng.integers(1, 4)))
+    if kd:
+        disp = xr.Dataset({"disparity_map": (["row", "col"], rng.integers(-2, 3, size=(h, w)).astype(np.float32)),
+                           "validity_mask": (["row", "col"], rng.integers(0, 5, size=(h, w)).astype(np.uint16))},
+                          coords={"row": rows, "col": cols})
+        if kd == 2:
+            disp["confidence_measure"] = bands(int(rng.integers(1, 4)))
+    m = rng.integers(-2, 3, size=(h, w)).astype(np.float32)
+    m[rng.random((h, w)) < 0.2] = np.nan
+    name = ["ambiguity", "risk_max.second_step", "a", "std_intensity.a_rather_long_suffix_for_a_band"][int(rng.integers(0, 4))]
+    return {"name_confidence_measure": name, "confidence_map": m, "disp": disp, "cv": cv}
